@@ -1192,7 +1192,7 @@ def vm_crosscheck(lines, model):
 
 # ------------------------------------------------------------------ entry points
 def run(ctx):
-    proof_ok, proof = common.proof_status(ctx, "C18")
+    proof_ok, proof = common.proof_status_all(ctx, "C18", ["links"])
     harness = common.build_harness("expand")
     driver = common.build_driver("expand")
     lines = common.corpus("C18", ("ED ", "EF ", "CE "))
